@@ -292,6 +292,9 @@ func c09Run(w *core.Worker, tier, unit string) {
 	if strings.HasPrefix(unit, "tok|") {
 		alpha := enum.UnitAlphabet(unit)
 		enum.EnumSeqUnit(unit, len(alpha), func(seq []int) {
+			if w.Flooded() {
+				return
+			}
 			toks := make([]string, len(seq))
 			for i, s := range seq {
 				toks[i] = alpha[s]
@@ -334,6 +337,9 @@ func c09Run(w *core.Worker, tier, unit string) {
 	leaves, sub := treeUnitSets(unit)
 	_, eu := stripTreeUnit(unit)
 	qast.EnumTreeUnit(eu, leaves, sub, func(t *qast.Node) {
+		if w.Flooded() {
+			return
+		}
 		enc := ""
 		baseText := qast.Text(t, nil)
 		for _, df := range []core.BStr{"", "D"} {
